@@ -38,9 +38,10 @@ func errResultIndex(sig *types.Signature) int {
 }
 
 type errAnalysis struct {
-	w     *World
-	named map[string]types.Type
-	prop  map[*ssa.Function]bool
+	fwdMemo map[[2]interface{}]int
+	w       *World
+	named   map[string]types.Type
+	prop    map[*ssa.Function]bool
 }
 
 func (a *errAnalysis) baseProp(c ssa.CallInstruction) string {
@@ -110,6 +111,61 @@ type errFlow struct {
 }
 
 // wrapsArg: does the call keep the cause reachable for its argument v?
+// forwardsParam: every error g returns (other than nil) derives from its parameter i — it is the
+// parameter itself, or wraps it in one of the accepted ways.
+func (a *errAnalysis) forwardsParam(g *ssa.Function, i int) bool {
+	if a.fwdMemo == nil {
+		a.fwdMemo = map[[2]interface{}]int{}
+	}
+	key := [2]interface{}{g, i}
+	switch a.fwdMemo[key] {
+	case 1:
+		return false // in progress
+	case 2:
+		return true
+	case 3:
+		return false
+	}
+	a.fwdMemo[key] = 1
+	ok := false
+	defer func() {
+		if ok {
+			a.fwdMemo[key] = 2
+		} else {
+			a.fwdMemo[key] = 3
+		}
+	}()
+	if len(g.Blocks) == 0 || i >= len(g.Params) {
+		return false
+	}
+	ei := errResultIndex(g.Signature)
+	if ei < 0 {
+		return false
+	}
+	fl := a.flow(g.Params[i])
+	all, n := true, 0
+	instrsOf(g, func(in ssa.Instruction) {
+		ret, isRet := in.(*ssa.Return)
+		if !isRet {
+			return
+		}
+		res := retResults(ret)
+		if ei >= len(res) {
+			all = false
+			return
+		}
+		if isNilConst(res[ei]) {
+			return
+		}
+		n++
+		if !fl.derived[res[ei]] {
+			all = false
+		}
+	})
+	ok = all && n > 0
+	return ok
+}
+
 func wrapsArg(c ssa.CallInstruction, v ssa.Value) (wrapped bool, textOnly string) {
 	cc := c.Common()
 	f := cc.StaticCallee()
@@ -217,6 +273,16 @@ func (a *errAnalysis) flow(ev ssa.Value) *errFlow {
 					continue
 				}
 				wrapped, text := wrapsArg(x, v)
+				if !wrapped && text == "" {
+					// a helper of the package that hands its error parameter on (decorated or not)
+					if g := cc.StaticCallee(); g != nil && g.Pkg != nil && g.Pkg.Pkg.Path() == twigPath {
+						for ai, arg := range cc.Args {
+							if arg == v && a.forwardsParam(g, ai) {
+								wrapped = true
+							}
+						}
+					}
+				}
 				if wrapped {
 					if val, ok := r.(ssa.Value); ok {
 						walk(val)
@@ -447,25 +513,42 @@ func (a *errAnalysis) checkLookups(r *Report, reach map[*ssa.Function]bool) {
 		}
 		ei := errResultIndex(fn.Signature)
 		instrsOf(fn, func(in ssa.Instruction) {
-			lk, ok := in.(*ssa.Lookup)
-			if !ok || !lk.CommaOk {
+			var tn, f string
+			var tuple ssa.Value
+			switch x := in.(type) {
+			case *ssa.Lookup:
+				if !x.CommaOk {
+					return
+				}
+				u, ok := x.X.(*ssa.UnOp)
+				if !ok {
+					return
+				}
+				fa, ok := u.X.(*ssa.FieldAddr)
+				if !ok {
+					return
+				}
+				tn, f = fieldOfAddr(fa)
+				tuple = x
+			case *ssa.Call:
+				// v, ok := ctx.lookupFilter(name): the lookup sits in a helper
+				o, fld, _, ok := lookupHelper(x.Call.StaticCallee())
+				if !ok {
+					return
+				}
+				tn, f, tuple = o, fld, x
+			default:
 				return
 			}
-			u, ok := lk.X.(*ssa.UnOp)
-			if !ok {
-				return
-			}
-			fa, ok := u.X.(*ssa.FieldAddr)
-			if !ok {
-				return
-			}
-			tn, f := fieldOfAddr(fa)
 			if tn != "Environment" || !(f == "filters" || f == "functions" || f == "tests") {
 				return
 			}
 			// the ok value and its If
 			var okv ssa.Value
-			for _, ref := range *lk.Referrers() {
+			if tuple.Referrers() == nil {
+				return
+			}
+			for _, ref := range *tuple.Referrers() {
 				if ex, isEx := ref.(*ssa.Extract); isEx && ex.Index == 1 {
 					okv = ex
 				}
